@@ -174,6 +174,21 @@ func patternPopulation(c *ctx, forC10 bool) []patCase {
 		}
 		add(fmt.Sprintf("rand%d", i), t, "")
 	}
+	// 5b. blanks at the edges of a pattern are literals like any other; a zero repetition is the empty string; an explicit
+	// NUL can never match a NUL-free text (and must not become optional)
+	{
+		sp, a, b := lit(' '), lit('a'), lit('b')
+		zero := func(n *reNode) *reNode { return quantified(n, mkq("{", 0, 0, 0, false)) }
+		zero2 := func(n *reNode) *reNode { return quantified(n, mkq("{", 0, 0, 2, false)) }
+		nul := leaf(`\x00`, rsOf(0))
+		for i, t := range []*reNode{
+			cat(sp, a), cat(a, sp), sp, cat(sp, sp, a, sp, sp), cat(quantified(leaf("[0-9]", rsDigit), qPlus), sp), cat(sp, quantified(a, qStar)), alt(cat(a, sp), b), cat(sp, sp),
+			zero(a), zero2(a), cat(a, zero(b), a), cat(lit('v'), zero(leaf("[0-9]", rsDigit)), lit('x')), cat(lit('k'), zero2(leaf("[a-z]", rsRange('a', 'z'))), lit('z')), zero(group(cat(a, b), quant{})), cat(zero(a), zero(b)), alt(zero(a), b),
+			cat(a, nul, b), nul, cat(a, b, nul, lit('c'), leaf("[0-9]", rsDigit)), cat(lit('k'), lit('e'), lit('y'), nul), alt(nul, a), cat(a, leaf(`\x0000`, rsOf(0))),
+		} {
+			add(fmt.Sprintf("edge%d", i), t, "edge_blanks_zero_repetitions_explicit_nul")
+		}
+	}
 	// 6. the start-of-string marker (regex = [ "^" ] expr): for a whole-match language it changes nothing. In front of
 	// plain literals (where a shortcut around the pattern parser would be tempting) and of every 61st other pattern.
 	base := len(out)
